@@ -232,6 +232,7 @@ def val_key(v: Val, ctx: Optional[Ctx] = None):
     raise Unmodelled("no key for value %r" % (v,))
 
 
+PAIR_PATHS = set()   # paths of values that are 2-tuples (component pairs): [0]/[1] are roles there
 NONNEG_FIELDS = {("Permeance", "value")}
 POSITIVE_FIELDS = {("Component", "molecular_weight")}
 
@@ -278,6 +279,8 @@ def opaque_of(ty: Ty, path: str, ctx: Ctx, flags=()) -> Val:
     if k == "list":
         return ListV("opaque", path=path, ty=ty.args[0] if ty.args else ANY)
     if k == "tuple":
+        if len(ty.args) == 2:
+            PAIR_PATHS.add(path)
         return TupV([opaque_of(t, "%s[%d]" % (path, i), ctx) for i, t in enumerate(ty.args)])
     if k in ("path", "frame", "dict"):
         return Opaque(path)
